@@ -214,6 +214,9 @@ def parse_raw_http(data: bytes) -> Union[HttpRequest, HttpResponse]:
 
     headers = {}
     for header in header_data.split(b"\r\n"):
+        if not header:
+            # a message without header lines has an empty header block, not a header with an empty name
+            continue
         key, _, value = header.partition(b": ")
         headers[key] = value
 
